@@ -16,7 +16,7 @@ VERIF = os.path.dirname(os.path.dirname(os.path.abspath(__file__)))
 sys.path.insert(0, os.path.join(VERIF, 'harness'))
 import checklib  # noqa: E402
 
-REPO = '/repo'
+REPO = os.environ.get('VERIF_REPO', '/repo')
 TIES = sorted({t for ts in checklib.TIE_FOR.values() for t in ts})
 
 
